@@ -200,6 +200,7 @@ func C01(r *core.Run) {
 	rule017(r)
 	ruleL8(r)
 	rule019(r)
+	rule153(r)
 }
 
 func rule011(r *core.Run) {
